@@ -701,7 +701,7 @@ func (g *gen) stmt(a *asm, d int) {
 	switch {
 	case p < 90:
 		g.expr(a, 3)
-		a.op(evm.POP)
+		g.sink(a)
 	case p < 160: // MSTORE / MSTORE8
 		g.expr(a, 2)
 		g.memOff(a)
@@ -786,7 +786,7 @@ func (g *gen) stmt(a *asm, d int) {
 		a.dest(l)
 	case p < 865:
 		g.expr(a, 2)
-		a.op(evm.POP)
+		g.sink(a)
 	case p < 920: // unless (cond) terminate here
 		g.cond(a)
 		l := a.newLabel()
@@ -946,6 +946,21 @@ func (g *gen) terminal(a *asm) {
 		a.pushU(1)
 		a.pushBytes(hexBytes(interesting[10+r.Intn(len(interesting)-10)]))
 		a.op(evm.MLOAD)
+	}
+}
+
+// sink consumes a computed word: dropped, kept in low memory (what RETURN/REVERT/LOG/CALL read) or stored.
+func (g *gen) sink(a *asm) {
+	switch p := g.r.Intn(100); {
+	case p < 40:
+		a.op(evm.POP)
+	case p < 80:
+		a.pushU(uint64(g.r.Intn(4) * 32))
+		a.op(evm.MSTORE)
+	default:
+		s := g.w.slots[g.r.Intn(len(g.w.slots))]
+		a.pushBytes(s[:])
+		a.op(evm.SSTORE)
 	}
 }
 
